@@ -84,7 +84,9 @@ void __real_srand(unsigned);
 /* ---------- instances ---------- */
 struct dgram {
 	struct dgram *next;
-	uint32_t srcip, dstip;	/* network order */
+	uint32_t srcip, dstip;	/* network order (IPv4) */
+	struct in6_addr src6, dst6;	/* IPv6 */
+	int v6;
 	uint16_t srcport;	/* host order */
 	int len;
 	unsigned char data[];
@@ -94,6 +96,7 @@ struct vfd {
 	int used;
 	int owner;		/* instance index */
 	int kind;		/* 1 udp, 2 tun */
+	int domain;		/* AF_INET / AF_INET6 for udp */
 	struct dgram *head, *tail;
 	unsigned char *prev;	/* previous datagram read from this fd (residue mode 4) */
 	int prevlen;
@@ -390,6 +393,8 @@ int __wrap_socket(int domain, int type, int protocol)
 	if (cur < 0)
 		return __real_socket(domain, type, protocol);
 	fd = newvfd(1);
+	if (fd >= 0)
+		vfds[fd - FD_BASE].domain = domain;
 	emit("sock %s %d %d", insts[cur].name, fd, domain);
 	return fd;
 }
@@ -404,6 +409,11 @@ int __wrap_bind(int fd, const struct sockaddr *sa, socklen_t len)
 		char ip[32];
 		inet_ntop(AF_INET, &in->sin_addr, ip, sizeof(ip));
 		emit("bind %s %d %s %d", insts[cur].name, fd, ip, ntohs(in->sin_port));
+	} else if (sa->sa_family == AF_INET6) {
+		const struct sockaddr_in6 *in6 = (const struct sockaddr_in6 *) sa;
+		char ip[64];
+		inet_ntop(AF_INET6, &in6->sin6_addr, ip, sizeof(ip));
+		emit("bind %s %d %s %d", insts[cur].name, fd, ip, ntohs(in6->sin6_port));
 	} else {
 		emit("bind %s %d af%d 0", insts[cur].name, fd, sa->sa_family);
 	}
@@ -536,6 +546,17 @@ static void fill_from(struct dgram *d, struct sockaddr *sa, socklen_t *slen)
 	socklen_t n;
 	if (!sa || !slen)
 		return;
+	if (d->v6) {
+		struct sockaddr_in6 in6;
+		memset(&in6, 0, sizeof(in6));
+		in6.sin6_family = AF_INET6;
+		in6.sin6_addr = d->src6;
+		in6.sin6_port = htons(d->srcport);
+		n = *slen < sizeof(in6) ? *slen : sizeof(in6);
+		memcpy(sa, &in6, n);
+		*slen = sizeof(in6);
+		return;
+	}
 	memset(&in, 0, sizeof(in));
 	in.sin_family = AF_INET;
 	in.sin_addr.s_addr = d->srcip;
@@ -599,7 +620,19 @@ ssize_t __wrap_recvmsg(int fd, struct msghdr *msg, int flags)
 		fill_from(d, msg->msg_name, &sl);
 		msg->msg_namelen = sl;
 	}
-	if (msg->msg_control && msg->msg_controllen >= CMSG_SPACE(sizeof(struct in_pktinfo))) {
+	if (d->v6 && msg->msg_control && msg->msg_controllen >= CMSG_SPACE(sizeof(struct in6_pktinfo))) {
+		struct cmsghdr *c;
+		struct in6_pktinfo pi6;
+		memset(msg->msg_control, 0, msg->msg_controllen);
+		c = CMSG_FIRSTHDR(msg);
+		c->cmsg_level = IPPROTO_IPV6;
+		c->cmsg_type = IPV6_PKTINFO;
+		c->cmsg_len = CMSG_LEN(sizeof(pi6));
+		memset(&pi6, 0, sizeof(pi6));
+		pi6.ipi6_addr = d->dst6;
+		memcpy(CMSG_DATA(c), &pi6, sizeof(pi6));
+		msg->msg_controllen = CMSG_SPACE(sizeof(pi6));
+	} else if (!d->v6 && msg->msg_control && msg->msg_controllen >= CMSG_SPACE(sizeof(struct in_pktinfo))) {
 		struct cmsghdr *c;
 		struct in_pktinfo pi;
 		memset(msg->msg_control, 0, msg->msg_controllen);
@@ -633,6 +666,10 @@ ssize_t __wrap_sendto(int fd, const void *buf, size_t len, int flags,
 		const struct sockaddr_in *in = (const struct sockaddr_in *) sa;
 		inet_ntop(AF_INET, &in->sin_addr, ip, sizeof(ip));
 		port = ntohs(in->sin_port);
+	} else if (sa && sa->sa_family == AF_INET6) {
+		const struct sockaddr_in6 *in6 = (const struct sockaddr_in6 *) sa;
+		inet_ntop(AF_INET6, &in6->sin6_addr, ip, sizeof(ip));
+		port = ntohs(in6->sin6_port);
 	} else if (sa) {
 		snprintf(ip, sizeof(ip), "af%d", sa->sa_family);
 	}
@@ -877,9 +914,16 @@ int main(int argc, char **argv)
 				int l = unhex(tok[5], &b);
 				struct dgram *d = malloc(sizeof(*d) + l + 1);
 				d->next = NULL;
-				d->srcip = inet_addr(tok[2]);
+				d->v6 = strchr(tok[2], ':') != NULL;
+				if (d->v6) {
+					inet_pton(AF_INET6, tok[2], &d->src6);
+					inet_pton(AF_INET6, tok[4], &d->dst6);
+					d->srcip = d->dstip = 0;
+				} else {
+					d->srcip = inet_addr(tok[2]);
+					d->dstip = inet_addr(tok[4]);
+				}
 				d->srcport = atoi(tok[3]);
-				d->dstip = inet_addr(tok[4]);
 				d->len = l;
 				memcpy(d->data, b, l);
 				free(b);
@@ -896,6 +940,7 @@ int main(int argc, char **argv)
 				struct dgram *d = malloc(sizeof(*d) + l + 1);
 				d->next = NULL;
 				d->srcip = d->dstip = 0;
+				d->v6 = 0;
 				d->srcport = 0;
 				d->len = l;
 				memcpy(d->data, b, l);
